@@ -58,6 +58,9 @@ func checkReply(c reqCase, out []byte, panicked bool) (labels []string, err erro
 	f := c.Frame
 	fc := f[7]
 	labels = []string{"class:" + c.Class, "handler:" + c.Handler, "level:" + c.Level}
+	if c.PauseMs > 0 {
+		labels = append(labels, fmt.Sprintf("pause-between-fragments:%dms", c.PauseMs))
+	}
 	if len(out) == 0 {
 		labels = append(labels, "no-reply")
 		switch {
